@@ -286,14 +286,37 @@ impl C05 {
                 };
                 crate::engine::trace(|| format!("sink {:?} per_hunk={}: write calls={} short_writes={} EINTR={} hard_fired={} ok={} accepted {} of {} bytes", sched, per_hunk, run.calls, run.short_writes, run.interrupts, run.hard_fired, run.result_ok, run.accepted.len(), expect.len()));
                 if sched.hard != 0 {
-                    // hard faults are reach probes only: C05 says nothing about
-                    // error returns
+                    // hard faults: C05 says nothing about *which* error comes
+                    // back, so that is not judged; but success must mean that
+                    // every byte reached the sink, and whatever reached it must
+                    // be a prefix of the rendering
                     if run.hard_fired {
                         out.faults[match sched.hard {
                             1 => F_HARD_ZERO,
                             2 => F_HARD_ENOSPC,
                             _ => F_HARD_WOULDBLOCK,
                         }] += 1;
+                        if !expect.starts_with(&run.accepted) {
+                            return fail(
+                                "c05.writer_bytes",
+                                format!(
+                                    "sink schedule {:?}: bytes accepted before the hard fault are not a prefix of the rendering",
+                                    sched
+                                ),
+                            );
+                        }
+                        if run.result_ok && run.accepted != expect {
+                            return fail(
+                                "c05.writer_ok_means_all_bytes",
+                                format!(
+                                    "sink schedule {:?}{}: a write failed ({} of {} bytes reached the sink) but to_writer returned Ok",
+                                    sched,
+                                    if per_hunk { " (per hunk)" } else { "" },
+                                    run.accepted.len(),
+                                    expect.len()
+                                ),
+                            );
+                        }
                         continue;
                     }
                 }
@@ -343,16 +366,16 @@ impl Prop for C05 {
         "exploration"
     }
     fn rule(&self) -> &'static str {
-        "cases drawn from the run seed: two line texts (few distinct lines, repeats, LF/CRLF/lone-CR terminators, missing final newline, empty, header-like and marker-like contents, invalid UTF-8 in byte mode), algorithm, radius 0..=5, header on/off, str or [u8]; the diff is rendered into an all-accepting sink (reference R) and through Display, per hunk and whole; R is parsed and strictly applied by an independent applier; then UnifiedDiff::to_writer and UnifiedDiffHunk::to_writer are executed against simulated sinks (byte-at-a-time, random short writes, EINTR bursts, mixed; hard faults Ok(0)/ENOSPC/WouldBlock as unjudged probes) and the accepted bytes must equal R with Ok returned. evaluations = renderings + sink executions; distinct non-trivial = distinct (sink event log, accepted bytes) among sink executions in which at least one short write or EINTR actually fired"
+        "cases drawn from the run seed: two line texts (few distinct lines, repeats, LF/CRLF/lone-CR terminators, missing final newline, empty, header-like and marker-like contents, invalid UTF-8 in byte mode), algorithm, radius 0..=5, header on/off, str or [u8]; the diff is rendered into an all-accepting sink (reference R) and through Display, per hunk and whole; R is parsed and strictly applied by an independent applier; then UnifiedDiff::to_writer and UnifiedDiffHunk::to_writer are executed against simulated sinks (byte-at-a-time, random short writes, EINTR bursts, mixed; hard faults Ok(0)/ENOSPC/WouldBlock: the error value is not judged, but Ok must mean every byte arrived and accepted bytes must be a prefix of R) and otherwise the accepted bytes must equal R with Ok returned. evaluations = renderings + sink executions; distinct non-trivial = distinct (sink event log, accepted bytes) among sink executions in which at least one short write or EINTR actually fired"
     }
     fn fault_names(&self) -> Vec<&'static str> {
         vec![
             "short_write",
             "EINTR",
             "byte_at_a_time_sink",
-            "hard_Ok(0)(unjudged)",
-            "hard_ENOSPC(unjudged)",
-            "hard_WouldBlock(unjudged)",
+            "hard_Ok(0)",
+            "hard_ENOSPC",
+            "hard_WouldBlock",
             "input_with_invalid_utf8",
         ]
     }
@@ -365,7 +388,7 @@ impl Prop for C05 {
     }
     fn assumptions(&self) -> Vec<&'static str> {
         vec![
-            "hard sink faults are injected but not judged (C05 does not speak about error returns)",
+            "under hard sink faults only two things are judged: Ok means all bytes arrived, and accepted bytes are a prefix of the rendering (C05 does not speak about which error is returned)",
             "the parse/apply clauses are a pure function of the input and are only sampled; the sink schedule is the simulated dimension",
             "failures of header start/length clauses that disappear exactly when the Compact swap arms repair their carried indices are the listed known finding KF1",
         ]
